@@ -59,7 +59,8 @@ def degenerate_problems(rng, count):
     out = []
     for _ in range(count):
         n = rng.randint(1, 3)
-        kind = rng.choice(["dup", "fixed", "p>n", "noslater", "farkas", "recession"])
+        kind = rng.choice(["dup", "fixed", "p>n", "noslater", "farkas", "recession", "farkas-crossing-bounds", "farkas-lb-eq",
+                           "farkas-ub-ineq"])
         P = [[(rng.randint(1, 3) if i == j else 0) for j in range(n)] for i in range(n)]
         c = [rng.randint(-2, 2) for _ in range(n)]
         x0 = [rng.randint(-1, 1) for _ in range(n)]
@@ -87,6 +88,16 @@ def degenerate_problems(rng, count):
             r = [rng.choice([-1, 1]) for _ in range(n)]
             G = [r, [-t for t in r]]; h = [0, -1]           # r.x <= 0 and r.x >= 1
             P = [[(1 if i == j else 0) for j in range(n)] for i in range(n)]
+        elif kind == "farkas-crossing-bounds":
+            j = rng.randrange(n)
+            lb = [rng.choice([None, -2]) for _ in range(n)]; ub = [rng.choice([None, 3]) for _ in range(n)]
+            lb[j] = 1; ub[j] = 0                              # lb_j > ub_j
+        elif kind == "farkas-lb-eq":
+            lb = [0] * n                                      # x >= 0 and sum x = -2
+            A = [[1] * n]; b = [-2]
+        elif kind == "farkas-ub-ineq":
+            ub = [0] * n                                      # x <= 0 and -sum x <= -1
+            G = [[-1] * n]; h = [-1]
         else:
             P = [[0] * n for _ in range(n)]
             c = [-1] + [0] * (n - 1)
@@ -115,8 +126,55 @@ def run(replay=None):
         pr = problem_from_int(n, p, m, P, c, A, b, G, h, lb, ub)
         for be in range(5):
             name = f"g{k}_{be}"
-            L = gen_dbl.case_lines(be, rng.choice([0, 1]), {}, ["d.setup " + pr.args(False), "d.solve", "d.result"])
-            cases.append({"name": name, "lines": L, "meta": {"be": be, "kind": kind, "class": cls}})
+            # (the duality-gap test stays on here; the fixed corpus below switches it off)
+            st = rng.choice([{}, {}, {"eps_abs": 1e-6, "eps_rel": 1e-7}])
+            body = ["d.setup " + pr.args(False), "d.solve", "d.result"]
+            hist = "direct"
+            if m and rng.random() < 0.25:
+                # the same problem reached through updates: a row of G first disabled by h_i = +inf, then h made finite together
+                # with G, then G passed alone (F16a/F17 family): the effective problem is the original one
+                i0 = rng.randrange(m)
+                h_inf = list(pr.h); h_inf[i0] = math.inf
+                pr_inf = problem_from_int(n, p, m, P, c, A, b, G, h, lb, ub); pr_inf.h = h_inf
+                body = ["d.setup " + pr_inf.args(False), f"d.update {rng.choice([0, 1])} " + pr.args(False, ["G", "h"]),
+                        f"d.update {rng.choice([0, 1])} " + pr.args(False, ["G"]), "d.solve", "d.result"]
+                hist = "h-row-history"
+            L = gen_dbl.case_lines(be, rng.choice([0, 1]), st, body)
+            cases.append({"name": name, "lines": L, "meta": {"be": be, "kind": kind, "class": cls, "settings": st, "history": hist}})
+            truth[name] = (cls, kind)
+    # fixed corpus (independent of VERIF_SEED): infeasible / unbounded problems with check_duality_gap = false. Without the gap test
+    # the relative primal tolerance eps_rel * primal_rel_inf (primal_rel_inf contains the norms of the diverging slacks) lets the
+    # unchanged solver return SOLVED on some of them: known finding F18, listed case by case in known_findings.txt, so that any
+    # OTHER false SOLVED of this corpus is still reported.
+    rngF = random.Random(20260930)
+    fixed = []
+    for rawF in (grid_problems(rngF, 400, False), degenerate_problems(rngF, 400)):
+        got = 0
+        for (n, p, m, P, c, A, b, G, h, lb, ub, kind) in rawF:
+            cls, cert = classify_checked([[F(v) for v in r] for r in P], [F(v) for v in c], A, b, G, h,
+                                         [None if v is None else F(v) for v in lb], [None if v is None else F(v) for v in ub])
+            if cls != "optimal":
+                fixed.append((n, p, m, P, c, A, b, G, h, lb, ub, kind, cls))
+                got += 1
+            if got >= 40:
+                break
+    # the inputs on which finding F18 was first seen (seed-dependent part of an earlier version of this check), kept explicitly
+    known_inputs = [
+        (2, 0, 2, [[0, 0], [0, 0]], [-1, 0], [], [], [[-1, 0], [0, 1]], [-1, 1], [0, None], [0, None], "F18-fixed-variable-vs-row", "infeasible"),
+        (2, 0, 1, [[0, 0], [0, 0]], [0, 1], [], [], [[0, 0]], [-1], [-1, 0], [None, None], "F18-zero-row", "infeasible"),
+    ]
+    for (n, p, m, P, c, A, b, G, h, lb, ub, kind, cls) in known_inputs:
+        c0, _ = classify_checked([[F(v) for v in r] for r in P], [F(v) for v in c], A, b, G, h,
+                                 [None if v is None else F(v) for v in lb], [None if v is None else F(v) for v in ub])
+        assert c0 == cls, "internal: listed F18 input is not of the recorded class"
+    fixed = known_inputs + fixed
+    for k, (n, p, m, P, c, A, b, G, h, lb, ub, kind, cls) in enumerate(fixed):
+        pr = problem_from_int(n, p, m, P, c, A, b, G, h, lb, ub)
+        for be in range(5):
+            name = f"F{k}_{be}"
+            L = gen_dbl.case_lines(be, k % 2, {"check_duality_gap": 0}, ["d.setup " + pr.args(False), "d.solve", "d.result"])
+            cases.append({"name": name, "lines": L, "meta": {"be": be, "kind": kind, "class": cls, "settings": {"check_duality_gap": 0},
+                                                             "history": "direct", "fixed": k}})
             truth[name] = (cls, kind)
     impl, lost = run_chunks([exe], cases, 12, 30)
     chk.cov["evaluations"] = len(cases)
@@ -136,15 +194,23 @@ def run(replay=None):
             bad = f"{'PRIMAL' if st == -2 else 'DUAL'}_INFEASIBLE reported for a problem that has an optimal solution (exact classification)"
         elif cls in ("infeasible", "unbounded") and st == 1:
             bad = f"SOLVED reported for a problem that is {cls} (exact classification, integer data: clear margin)"
-        if bad:
+        if bad and "fixed" in c["meta"]:
+            chk.violation(f"impl:verdict:gapoff:F{c['meta']['fixed']}:be{c['meta']['be']}", bad + " with check_duality_gap = false "
+                          f"(fixed corpus problem F{c['meta']['fixed']}, {kind})\n\ninput:\n" + case_text(c))
+        elif bad:
             nviol += 1
             if nviol <= 5:
                 chk.violation(f"impl:verdict:{cls}:status{st}:be{c['meta']['be']}:{kind}", bad + f"\ncase {c['name']} kind {kind}\n\ninput:\n" + case_text(c))
     for x in lost[:2]:
         chk.violation("impl:hang-or-crash:" + x["why"][:20], f"solver run lost on {x['name']}: {x['why']}", False)
     chk.cov["verdict_matrix(class:status)"] = verdicts
+    chk.cov["settings_and_histories"] = {"fixed_corpus_check_duality_gap_off": sum(1 for c in cases if "fixed" in c["meta"]),
+                                         "h_row_histories": sum(1 for c in cases if c["meta"]["history"] != "direct")}
     chk.cov["rule"] = ("integer grid (n<=2, entries -1/0/1, all block presences, LPs, singular P) + constructed degenerate strictly convex, "
-                       "Farkas-infeasible and recession-unbounded problems, each on all five back ends; class decided exactly (rational "
+                       "Farkas-infeasible (rows, crossing bounds, bounds against an equality/inequality) and recession-unbounded problems, each on "
+                       "all five back ends (default and looser tolerances) and, for a quarter of the problems with inequalities, reached "
+                       "through an update history that disables and re-enables a row of G; plus a fixed corpus of 80 infeasible/unbounded problems with "
+                       "check_duality_gap = false (known finding F18 listed case by case); class decided exactly (rational "
                        "simplex cross-checked by Fourier-Motzkin, certificates re-verified); a verdict contradicting the class is a violation")
     for c in cases[:2]:
         chk.sample({"case": c["name"], "class": truth[c["name"]], "setup": c["lines"][1][:160]})
